@@ -892,6 +892,41 @@ func (r *fsmRig) monitorCase(id int, label string, seed *channels.VerifChannelSt
 			}
 		}
 	}
+	// C03, the completion rule itself, on the single-event cases of the table: both signals in either
+	// order complete, a paused (finalizing) Complete does not, the un-answered request completes
+	// locally, a responder enters Finalizing and is released from it
+	if len(evs) == 1 && len(out.notifs) >= 1 {
+		e := evs[0]
+		after := out.notifs[0].St.Status()
+		expect := func(want datatransfer.Status, sig, what string) {
+			if after != want {
+				r.res.fail(monitorFailure{Property: "C03", CaseID: id, Signature: sig + ":" + eventName(e.Code) + "@" + statusName(seed.Status),
+					What: what, Input: label, Observed: statusName(after), Expected: statusName(want)})
+			}
+		}
+		switch {
+		case e.Code == datatransfer.FinishTransfer && seed.Status == datatransfer.ResponderCompleted:
+			expect(datatransfer.Completing, "both-signals-do-not-complete", "the responder's Complete was seen, the own transport finishes: the channel must complete")
+		case e.Code == datatransfer.ResponderCompletes && seed.Status == datatransfer.TransferFinished:
+			expect(datatransfer.Completing, "both-signals-do-not-complete", "the own transport finished, the responder's Complete arrives: the channel must complete")
+		case e.Code == datatransfer.ResponderCompletes && seed.Status == datatransfer.ResponderFinalizingTransferFinished:
+			expect(datatransfer.Completing, "final-complete-does-not-complete", "after a paused Complete and the own transport's finish, the final Complete must complete the channel")
+		case e.Code == datatransfer.FinishTransfer && seed.Status == datatransfer.ResponderFinalizing:
+			expect(datatransfer.ResponderFinalizingTransferFinished, "paused-complete-completes", "a paused (finalizing) Complete plus the own transport's finish must wait for the final Complete")
+		case e.Code == datatransfer.ResponderBeginsFinalization && seed.Status == datatransfer.TransferFinished:
+			expect(datatransfer.ResponderFinalizingTransferFinished, "paused-complete-completes", "a paused (finalizing) Complete after the own transport's finish must wait for the final Complete")
+		case e.Code == datatransfer.FinishTransfer && seed.Status == datatransfer.AwaitingAcceptance:
+			expect(datatransfer.Completing, "local-only-completion-lost", "a request that was never answered completes locally when its transport finishes")
+		case e.Code == datatransfer.FinishTransfer && (seed.Status == datatransfer.Ongoing || seed.Status == datatransfer.Queued):
+			expect(datatransfer.TransferFinished, "one-signal-completes", "the own transport's finish alone must not complete the channel")
+		case e.Code == datatransfer.ResponderCompletes && (seed.Status == datatransfer.Ongoing || seed.Status == datatransfer.Queued):
+			expect(datatransfer.ResponderCompleted, "one-signal-completes", "the responder's Complete alone must not complete the channel")
+		case e.Code == datatransfer.BeginFinalizing && (seed.Status == datatransfer.Ongoing || seed.Status == datatransfer.Queued):
+			expect(datatransfer.Finalizing, "finalizing-not-entered", "a responder that requires finalization enters Finalizing")
+		case e.Code == datatransfer.ResumeResponder && seed.Status == datatransfer.Finalizing:
+			expect(datatransfer.Completing, "finalizing-not-released", "a resume releases a finalizing responder, which then completes")
+		}
+	}
 	// C03 on histories of the initiator's normal flow from an accepted status
 	if seed.Status == datatransfer.Queued || seed.Status == datatransfer.Ongoing {
 		normal, ft, rc := true, false, false
